@@ -5,6 +5,11 @@ ROOT = os.path.dirname(os.path.dirname(os.path.abspath(__file__)))
 BASE_OFF = "cd /repo && env -u BUIDL_VERIF_TRACE /venv/bin/python -m pytest -ra -q -p no:cacheprovider --timeout=900 --continue-on-collection-errors"
 
 CLAIMED = {
+ "C11": dict(
+   text="TLC explores every PSBT an adversary obtains by applying up to two tamperings of a ten-entry catalogue (swapped scriptPubKey keeping metadata, foreign script, foreign key with forged derivation, all change keys from one cosigner, wrong path, foreign fingerprint, changed quorum, second change output, spend dressed as change, inconsistent input) to an honest m-of-n PSBT, against the change-detection procedure written check by check like PSBTOut.validate and _describe_basic_multisig_outputs: the policy of the unrepaired library is refuted (fake change), the repaired policy labels change only what the reference predicate RealChange allows and rejects inconsistent inputs. Every tampering is applied to real P2SH and P2WSH PSBTs (HD keys, global xpubs, as object and re-parsed from bytes) and run through describe_basic_multisig; TLC evaluates RealChange on the abstract counterpart and the fee / conservation identities with big-number sums.",
+   design="3/C11",
+   note="Trusted: TLC, Review.tla / C11Cases.tla; which key sits where in a tampered PSBT is known to the harness by construction. Witness-UTXO amounts cannot contradict anything inside an unsigned PSBT: amount tampering is applied to non-witness UTXOs.",
+   technique="TLA+ adversary model of the review procedure model-checked by TLC + scenario replay on real PSBTs decided by TLC with the reference predicate"),
  "C10": dict(
    text="TLC explores the signing workflow with several PSBT copies in flight (every interleaving of Sign / Combine / Finalize for m-of-n): what a copy holds and what it finalises to is a function of the set of contributing signers, and a copy is finalisable iff at least m contributed. The model's behaviours are replayed on real wallets (P2PKH, P2WPKH, P2SH-P2WPKH, P2SH / P2WSH / P2SH-P2WSH m-of-n, 1..2 inputs, HD keys, unknown key-values): every signer subset, sequential signing in every order and parallel signing with left and right folds of combine; PSBTs reached for the same signer set must be byte-identical and finalise/extract verifies iff at least m signed. Every PSBT reached is parsed by TLC with the BIP174 container specification (unique keys, map counts, unsigned transaction in non-witness format with empty scriptSigs, partial-signature counts, parse/serialise identity, still loadable after extraction); PSBTs carrying invalid partial signatures, alone or next to valid ones, must fail to load.",
    design="3/C10",
@@ -101,7 +106,7 @@ CLAIMED = {
    note="Trusted: TLC, the transcription of Bitcoin Core's EvalScript semantics in Consensus.tla (Appendix A.1), hashlib for the five hash opcodes, the harness wrapper that records opcode calls. 40-operation programs are sampled.",
    technique="TLA+ reference interpreter + TLC exhaustive tables replayed into code + TLC validation of recorded opcode traces"),
 }
-PENDING_REASON = "check not built yet in this session (planned per DESIGN.md section 3; specification work in progress)"
+PENDING_REASON = "not claimed"
 
 def main():
     props = [json.loads(l) for l in open(os.path.join(ROOT, "properties.jsonl"))]
